@@ -620,7 +620,7 @@ def decide(root, prop, tier, seed, scratch, t0, ev_path):
             c = contracts.get(sid)
             if c is None or (prop not in fi["props"] and not dev):
                 continue
-            n = 1 + len(c.requires) + len(c.ensures) + sum(len(l["invariant"]) + len(l["ensures"]) + (1 if l["decreases"] else 0) for l in c.loops.values())
+            n = 1 + len(c.requires) + len(c.ensures) + sum(len(l["invariant"]) + len(l["ensures"]) + (1 if l["decreases"] else 0) for l in c.loops.values()) + len(gen.hint_asserts(c))
             entry = dict(function=fi["path"], unit=ur["unit"], src_sha256_16=fi["sha"], backend="verus",
                          status="proved" if fi["verified"] else "contract assumed here (%s)" % (fi["trusted_by"] or "proved in its own unit"))
             if fi.get("variant"):
